@@ -35,12 +35,43 @@ func Expr(v ssa.Value) string { return exprDepth(v, 0) }
 // text does not depend on how parameters are called. Set by such rules only.
 var canonParams bool
 
+// inlineEnv: while the return expression of a straight-line accessor is rendered in place of a
+// call of it, its parameters stand for the caller's argument expressions.
+var inlineEnv []map[*ssa.Parameter]string
+
+// accessor: fn is a straight-line function without effects (one block, no store, no defer/go/send/
+// map update/panic, calls allowed) — the kind of helper a refactoring extracts to name an
+// expression. Returns its return instruction.
+func accessor(fn *ssa.Function) *ssa.Return {
+	if fn == nil || len(fn.Blocks) != 1 || fn.Recover != nil {
+		return nil
+	}
+	var ret *ssa.Return
+	for _, in := range fn.Blocks[0].Instrs {
+		switch x := in.(type) {
+		case *ssa.Store, *ssa.MapUpdate, *ssa.Send, *ssa.Go, *ssa.Defer, *ssa.Panic, *ssa.RunDefers:
+			return nil
+		case *ssa.Return:
+			ret = x
+		}
+	}
+	if ret == nil || len(ret.Results) == 0 {
+		return nil
+	}
+	return ret
+}
+
 func exprDepth(v ssa.Value, d int) string {
 	if d > 12 {
 		return "…"
 	}
 	switch x := v.(type) {
 	case *ssa.Parameter:
+		for i := len(inlineEnv) - 1; i >= 0; i-- {
+			if s, ok := inlineEnv[i][x]; ok {
+				return s
+			}
+		}
 		if canonParams {
 			for i, q := range x.Parent().Params {
 				if q == x {
@@ -94,6 +125,26 @@ func exprDepth(v ssa.Value, d int) string {
 		for _, a := range com.Args {
 			args = append(args, exprDepth(a, d+1))
 		}
+		// a call of an unexported straight-line accessor of the same package is rendered as the expression it
+		// returns (exported functions are the API the rules name)
+		if callee := com.StaticCallee(); callee != nil && x.Parent() != nil && callee.Pkg != nil && callee.Pkg == x.Parent().Pkg && len(inlineEnv) < 3 && !token.IsExported(callee.Name()) {
+			if ret := accessor(callee); ret != nil && len(callee.Params) == len(args) {
+				env := map[*ssa.Parameter]string{}
+				for i, p := range callee.Params {
+					env[p] = args[i]
+				}
+				inlineEnv = append(inlineEnv, env)
+				var rs []string
+				for _, r := range ret.Results {
+					rs = append(rs, exprDepth(r, d+1))
+				}
+				inlineEnv = inlineEnv[:len(inlineEnv)-1]
+				if len(rs) == 1 {
+					return rs[0]
+				}
+				return "tuple(" + strings.Join(rs, "; ") + ")"
+			}
+		}
 		name := "?"
 		if callee := com.StaticCallee(); callee != nil {
 			name = calleeName(callee)
@@ -108,7 +159,14 @@ func exprDepth(v ssa.Value, d int) string {
 	case *ssa.TypeAssert:
 		return exprDepth(x.X, d+1) + ".(" + types.TypeString(x.AssertedType, shortQual) + ")"
 	case *ssa.Extract:
-		return exprDepth(x.Tuple, d+1) + fmt.Sprintf("#%d", x.Index)
+		t := exprDepth(x.Tuple, d+1)
+		if strings.HasPrefix(t, "tuple(") && strings.HasSuffix(t, ")") {
+			parts := splitTuple(t[6 : len(t)-1])
+			if x.Index < len(parts) {
+				return parts[x.Index]
+			}
+		}
+		return t + fmt.Sprintf("#%d", x.Index)
 	case *ssa.MakeInterface:
 		return exprDepth(x.X, d+1)
 	case *ssa.ChangeType:
@@ -453,7 +511,7 @@ func effectOf(in ssa.Instruction) string {
 			return "builtin " + b.Name()
 		}
 		if callee := com.StaticCallee(); callee != nil {
-			if reportPure[calleeName(callee)] {
+			if reportPure[calleeName(callee)] || effectFree(callee) {
 				return ""
 			}
 			return "call of " + calleeName(callee)
@@ -830,4 +888,57 @@ func checkReportArg(w *World, res *report.RuleResult, key, name string, in ssa.I
 	} else {
 		res.Bad(key, w.InstrPos(in), name, fmt.Sprintf("reports %s: message constant/non-empty=%v, position taken from a node or token=%v", got, msgOK, posOK))
 	}
+}
+
+
+// splitTuple splits "a; b; c" at top-level "; " (parentheses and brackets balanced).
+func splitTuple(s string) []string {
+	var out []string
+	depth, start := 0, 0
+	for i := 0; i < len(s); i++ {
+		switch s[i] {
+		case '(', '[':
+			depth++
+		case ')', ']':
+			depth--
+		case ';':
+			if depth == 0 && i+1 < len(s) && s[i+1] == ' ' {
+				out = append(out, s[start:i])
+				start = i + 2
+			}
+		}
+	}
+	return append(out, s[start:])
+}
+
+
+// effectFree: every instruction of fn (and, transitively, of the functions it calls statically) is
+// without effect in the sense of effectOf. Functions without a body, and recursion, count as effectful.
+var effectFreeMemo = map[*ssa.Function]int{} // 1 in progress, 2 free, 3 not free
+
+func effectFree(fn *ssa.Function) bool {
+	switch effectFreeMemo[fn] {
+	case 1, 3:
+		return false
+	case 2:
+		return true
+	}
+	if fn == nil || len(fn.Blocks) == 0 {
+		return false
+	}
+	effectFreeMemo[fn] = 1
+	ok := true
+	for _, b := range fn.Blocks {
+		for _, in := range b.Instrs {
+			if effectOf(in) != "" {
+				ok = false
+			}
+		}
+	}
+	if ok {
+		effectFreeMemo[fn] = 2
+	} else {
+		effectFreeMemo[fn] = 3
+	}
+	return ok
 }
